@@ -1,6 +1,6 @@
 (** C19 — Issued sequence ids are unique and increasing across restarts and nodes.
     This file contains statements only; every proof is [exact <lemma>]. *)
-From RN Require Import Base.SMap SM.ConfigKey SM.Sequence SM.SequenceProofs.
+From RN Require Import Base.SMap SM.ConfigKey SM.Sequence SM.SequenceProofs SM.SeqGroupProofs SM.HistorySys SM.HistorySysProofs.
 Local Open Scope N_scope.
 
 (** replicated counters (SequenceDbManager): along every history that does not explicitly reset
@@ -40,3 +40,39 @@ Theorem C19_db_restart_replay_overlap : forall k L1 L2 L3,
   (forall more s len, (forall r, In r more -> resets k r = false) ->
      In (s, len) (draws_of k restarted more) -> next_free live k <= s).
 Proof. exact db_restart_replay_overlap. Qed.
+
+(** per-node cache (SeqGroup, repaired apply_range), fed with the ranges the counter hands out
+    (each at or above the end of the previous one): the ids one node returns strictly increase
+    (never twice, never backwards) and each lies inside a range the node was given *)
+Theorem C19_seqgroup_ids_increasing : forall step ops, disciplined 0 ops ->
+  (forall i j x y, (i < j)%nat -> nth_error (grun (group_new step) ops) i = Some x ->
+                   nth_error (grun (group_new step) ops) j = Some y -> x < y) /\
+  (forall id, In id (grun (group_new step) ops) -> exists s l, In (s, l) (applied_of ops) /\ s <= id < s + l).
+Proof. exact seqgroup_ids_increasing. Qed.
+
+(** ranges handed to different nodes are disjoint (C19_db_ids_unique_increasing), hence two nodes
+    never return the same id *)
+Theorem C19_seqgroup_no_overlap : forall step1 step2 ops1 ops2,
+  disciplined 0 ops1 -> disciplined 0 ops2 ->
+  (forall s1 l1 s2 l2, In (s1, l1) (applied_of ops1) -> In (s2, l2) (applied_of ops2) ->
+                       s1 + l1 <= s2 \/ s2 + l2 <= s1) ->
+  forall id, In id (grun (group_new step1) ops1) -> In id (grun (group_new step2) ops2) -> False.
+Proof. exact seqgroup_no_overlap. Qed.
+
+(** config history ids: for every history of the multi-node system model (allocations that commit
+    or are lost, applies in log order on every node, snapshot restarts / installs, empty restarts,
+    leader changes) that satisfies
+      marks_committed  (a write that opens a new id block is committed) and
+      issuer_caught_up (a node whose write commits has applied the whole log),
+    the committed history ids are pairwise different and strictly increasing in log order *)
+Theorem C19_history_ids_unique : forall evs, run_ok ev_ok hsys_new evs ->
+  forall i j x y, (i < j)%nat ->
+    nth_error (log_ids (hrun hsys_new evs)) i = Some x -> nth_error (log_ids (hrun hsys_new evs)) j = Some y -> x < y.
+Proof. exact history_ids_unique. Qed.
+
+(** REFUTED without marks_committed (known finding history-mark-lost; replayed on real
+    ConfigActors by runner/checks/c19.py): ids 2,3,4 then 1,2 *)
+Theorem C19_history_ids_unique_refuted :
+  run_ok ev_caught_up hsys_new lost_mark_witness /\
+  log_ids (hrun hsys_new lost_mark_witness) = [2; 3; 4; 1; 2].
+Proof. exact history_ids_unique_refuted. Qed.
